@@ -63,6 +63,24 @@ def normalize(x):
         return x
 
 
+# simple escapes of characters which are name characters anyway
+_nameescapes = re.compile(r'\\([g-zG-Z_]|[^\x00-\x7f]|(?<!^\\)-)').sub
+
+
+def unescape(x):
+    r"""
+    removes the \ before letters, "_", non-ASCII characters and a "-" which
+    is not the first character (which may be part of a name unescaped) but - other than ``normalize`` - keeps the
+    case and any other escape, for names which are case-sensitive like a
+    namespace prefix: "s\vg" is "svg", "a\.b" is kept (unicode escape
+    sequences have been resolved by the tokenizer already)
+    """
+    if x:
+        return _nameescapes(lambda matchobj: matchobj.group(1), x)
+    else:
+        return x
+
+
 def path2url(path):
     """Return file URL of `path`"""
     return 'file:' + urllib_pathname2url(os.path.abspath(path))
